@@ -48,7 +48,12 @@ def check(ctx):
     C04_more.parts_C09(ctx)
     rows = R.run_kind(ctx, 'multi')
     R.compare(ctx, rows, lambda d: (flag(d), ctx_of(d.get('trace')), d.get('sctx')), 'C09 context markers through multi-source operators (delivered contexts; context each source is subscribed with)', nontrivial=lambda c, gd: gd.get('trace', '-') != '-', max_report=2)
-    return dict(rule='every catalogue operator x variants (the WithContext variants add a marker in the callback) x raw scripts with a marker at subscription and one per item, '
+    # time-driven and hand-off operators: a burst of values with one marker each, timers / goroutines racing — every
+    # notification is delivered with ITS OWN context (kind=ctxpair)
+    rows = R.run_kind(ctx, 'ctxpair', shards=8)
+    R.compare(ctx, rows, proj_all, 'C09 every notification keeps its own context through Delay / DelayEach / Timeout / ThrottleTime / SampleTime / ObserveOn / SubscribeOn / Serialize (burst, racing timers)',
+              nontrivial=lambda c, gd: True, recheck=1)
+    return dict(rule='kind=ctxpair: 8 time-driven / hand-off operators x bursts of 4 and 12 values x {complete, error}, one marker per notification; every catalogue operator x variants (the WithContext variants add a marker in the callback) x raw scripts with a marker at subscription and one per item, '
                      'and random chains; compared: marker list of every delivered notification; oracle on the implementation: never nil, subscription marker present; '
                      'non-trivial = something delivered or dropped',
                 search=table_search('C09'))
